@@ -446,7 +446,10 @@ def run(ctx):
         "grid_type euclidean / spherical, geometry_corrected both ways; polygons with 3-5 vertices in "
         "both orientations passed as float64 / float32 / list / read-only arrays on grids with and "
         "without negative longitudes; 2-6 step histories of 21 public network measures on two "
-        "networks sharing one grid")
+        "networks sharing one grid; round 4: one angular and one Euclidean grid of 130 nodes per run; "
+        "geo networks' connectivity weighted and total link distances (all six wrappers, "
+        "geometry_corrected both ways, directed and undirected); an exception raised by the code "
+        "under test in any suite is reported as a violation with the inputs of the case")
     ctx.trusted = common.DEFAULT_TRUSTED + [
         "IEEE-754: float32 arithmetic on the dyadic kernel inputs is exact (all intermediate "
         "values have < 24 significant bits) — the reason the Rat model can be compared exactly",
@@ -864,6 +867,9 @@ def suite_angular(ctx, GeoGrid, rng, ncases, K):
         cur = {}
         with ImplGuard(ctx, "GeoGrid.angular_distance", cur, [reqs, outs, metas]):
             n = rng.choice([1, 2, 3, 5, 8, 12, 16])
+            if c == 1:
+                n = 130          # one grid beyond the range of 8-bit loop counters / indices
+                ctx.count("angular:N=130")
             kind, lat, lon = gen_geo_coords(rng, n)
             n = len(lat)
             cur.update(lat=lat, lon=lon)
@@ -922,9 +928,10 @@ def suite_angular(ctx, GeoGrid, rng, ncases, K):
                          f"GeoGrid.angular_distance: {what}",
                          {"lat": lat, "lon": lon, "clause": clause, "what": what,
                           "observed": D.astype(float).tolist(), "closed_form": R.tolist()})
-            reqs.append(f"angdist {n} {enc_rats(map(float, lat32))} {enc_rats(map(float, lon32))}")
-            outs.append(D)
-            metas.append((lat, lon))
+            if n <= 16:     # the model's matrices are closures: O(N^4) to read out (oracle only beyond)
+                reqs.append(f"angdist {n} {enc_rats(map(float, lat32))} {enc_rats(map(float, lon32))}")
+                outs.append(D)
+                metas.append((lat, lon))
 
     def judge(i, m):
         Mm = np.array(dec_floatmat(m), dtype=np.float64)
@@ -989,6 +996,9 @@ def suite_euclid(ctx, Grid, rng, ncases, maxdim):
         cur = {}
         with ImplGuard(ctx, "Grid.euclidean_distance", cur, [reqs, outs, xreqs, xouts]):
             n = rng.choice([1, 2, 3, 5, 8, 12])
+            if c == 1:
+                n = 130          # one grid beyond the range of 8-bit loop counters / indices
+                ctx.count("euclid:N=130")
             d = rng.randrange(1, maxdim + 1)
             kind, X = gen_euc_coords(rng, d, n)
             if d <= 3 and rng.random() < 0.12:
@@ -1031,6 +1041,8 @@ def suite_euclid(ctx, Grid, rng, ncases, maxdim):
                           "observed": D.astype(float).tolist(), "closed_form": R.tolist()})
             # the model is asked about the array the object holds (its shape, not the generator's)
             sd, sn = (int(v) for v in X32.shape)
+            if sn > 27:     # the model's matrices are closures: O(N^4) to read out (oracle only beyond)
+                continue
             reqs.append(f"eucld {sd} {sn} {enc_ratmat(X32.astype(np.float64).tolist())}")
             outs.append(D)
             if kind in ("lattice", "regular"):
